@@ -25,14 +25,15 @@ OUTSIDE = ['applying the XML patch operations to the T1 document (template text,
            'symbolic start values re-resolving across midnight (C08 proves they only move forward)']
 
 Q_PAIRS = [('bbb_v7', 'bbb_v7'), ('bbb_a1', 'bbb_v7'), ('syn_short_last', 'syn_short_last')]
-T_PAIRS = Q_PAIRS + [('bbb_t1', 'bbb_v7'), ('bbb_a2', 'bbb_v7'), ('tears_a1', 'tears_v1'), ('syn_irregular', 'syn_irregular')]
+# thorough catalogue sized by wall time (7 pairs x 6 bases x 4 periods at depth 60 ran past 30 minutes)
+T_PAIRS = Q_PAIRS + [('bbb_t1', 'bbb_v7'), ('syn_irregular', 'syn_irregular')]
 Q_BASES = ['65s', '1h', '1d-20s']
-T_BASES = ['65s', '10min', '1h', '1d-20s', '30d', '1y']
+T_BASES = ['65s', '1h', '1d-20s', '1y']
 
 
 def bounds(tier):
     return {'pairs': Q_PAIRS if tier == 'quick' else T_PAIRS, 'base_instants': Q_BASES if tier == 'quick' else T_BASES,
-            'depth_s': [1, 20] if tier == 'quick' else [1, 60], 'delta': '(0, 3 loops]', 'mup': MUPS}
+            'depth_s': [1, 12] if tier == 'quick' else [1, 20], 'delta': '(0, 3 loops]', 'mup': MUPS}
 
 
 def OBLIGATIONS(tier):
@@ -203,11 +204,11 @@ def _run_manifest_context_sym(now, ref_name, args, depth):
 def instances(tier):
     pairs = Q_PAIRS if tier == 'quick' else T_PAIRS
     bases = Q_BASES if tier == 'quick' else T_BASES
-    dmax = 12 if tier == 'quick' else 60
+    dmax = 12 if tier == 'quick' else 20
     out = []
     for rep_name, ref_name in pairs:
         for base in bases:
-            for mup in ([None, 8] if tier == 'quick' else [None, 2, 8, 30]):
+            for mup in ([None, 8] if tier == 'quick' else [None, 2, 8]):
                 out.append({'name': f'pair[{rep_name}/{ref_name},{base},mup={mup}]', 'fn': h_pair, 'weight': 4,
                             'params': {'rep_name': rep_name, 'ref_name': ref_name, 'base': base, 'depth_max': dmax, 'mup': mup},
                             'opts': {'max_paths': 60000, 'max_decisions': 4000, 'fork_limit': 200}})
